@@ -97,10 +97,19 @@ def quaternion_index_is_n_mod_nb(self, full_grid_indices, result):
     return _index_helper(self, full_grid_indices, result, "quaternion")
 
 
-def decomposition_returns_generating_grids(full_array, result):
+def _array_digest(full_array):
+    return hashlib.md5(np.ascontiguousarray(np.asarray(full_array, dtype=float)).tobytes()).hexdigest()
+
+
+def decomposition_returns_generating_grids(full_array, result, OLD):
     mon = "C09.decomposition"
     try:
-        key = hashlib.md5(np.ascontiguousarray(np.asarray(full_array, dtype=float)).tobytes()).hexdigest()
+        key = OLD.digest
+        if _array_digest(full_array) != key:
+            REC.fail("C09.decomposition_input_untouched", {"problem": "from_full_array_to_o_b_t modified the caller's array",
+                                                            "rows_head_after": np.asarray(full_array)[:3]})
+        else:
+            REC.ok("C09.decomposition_input_untouched")
         if key not in REG:
             REC.skip(mon, "array not produced by a monitored FullGrid")
             return True
@@ -126,7 +135,7 @@ def install():
     attach.ensure(fullgrid.FullGrid, "get_full_grid_as_array", rows_are_position_major_rotation_minor)
     attach.ensure(fullgrid.FullGrid, "get_position_index", position_index_is_n_div_nb)
     attach.ensure(fullgrid.FullGrid, "get_quaternion_index", quaternion_index_is_n_mod_nb)
-    attach.ensure(fullgrid, "from_full_array_to_o_b_t", decomposition_returns_generating_grids)
+    attach.ensure(fullgrid, "from_full_array_to_o_b_t", decomposition_returns_generating_grids, snapshots=[("digest", _array_digest)])
     return fullgrid
 
 
@@ -158,6 +167,7 @@ def drive(fullgrid, b, o, t, rng):
         fg.get_quaternion_index(sub)
         fg.get_quaternion_index(sub[::-1].tolist() if rng.random() < 0.3 else sub[::-1])
         fullgrid.from_full_array_to_o_b_t(A)
+        tr.from_full_array_to_o_b_t(A)        # the same array object again, through the alias the assignment code uses
         tr.from_full_array_to_o_b_t(A.copy())
         if fg.get_b_N() >= 2 and fg.get_o_N() >= 2 and fg.get_t_N() >= 2:
             REC.nontrivial_case((b, o, t))
